@@ -233,8 +233,11 @@ def _real(case):
         agents[agt_def.name] = selfa
     oa.OrchestratedAgent.__init__ = init
     crashes = []      # Agent._run calls on_fatal_error(e) when the agent's thread dies of an exception
-    oa.OrchestratedAgent.on_fatal_error = lambda selfa, e: crashes.append(
-        [selfa.name, type(e).__name__, str(e)[:200]])
+    def fatal(selfa, e):
+        import traceback
+        frames = [f.name for f in traceback.extract_tb(e.__traceback__)]
+        crashes.append([selfa.name, type(e).__name__, str(e)[:200], frames[-8:]])
+    oa.OrchestratedAgent.on_fatal_error = fatal
     orig_mgt_stop = om.AgentsMgt.stop
 
     def mgt_stop(selfm):     # only called from the except clause of AgentsMgt.on_message
@@ -545,8 +548,14 @@ def _repair(case):
 
             def on_done(sel, metrics=None, _r=reported):
                 _r.append(list(sel))
-                raise _StopAfterReport()
             agent._on_repair_done = on_done
+            # the handler goes on after the report: re-replication of what it deployed (this
+            # agent's Discovery knows no neighbour's host -- the situation of a new host whose
+            # replication-neighbour cache was reset by the agent_removed notice --, so the
+            # neighbour lookup raises UnknownComputation inside replicate()), start + pause of
+            # the deployed computations, removal of the repair computations
+            agent._replication_level = 1
+            o["after_report"] = None
             before = set(c.name for c in agent.computations())
             for name, reg in list(agent._repair_computations.items()):
                 reg.computation.value_selection(x.get((reg.candidate, a), 0), 0)
@@ -555,7 +564,13 @@ def _repair(case):
                     agent._on_repair_computation_finished(name)
                 except _StopAfterReport:
                     pass
+                except Exception as e:      # would end the agent's thread in a real run
+                    o["after_report"] = [type(e).__name__, str(e)[:200]]
+                    break
             o["reported"] = reported
+            o["left_repair"] = sorted(c.name for c in agent.computations() if c.name.startswith("B"))
+            o["own_after"] = sorted(c.name for c in agent.computations() if c.name in before)
+            o["own"] = sorted(own)
             o["deployed"] = sorted(c.name for c in agent.computations()
                                    if c.name not in before and not c.name.startswith("B"))
             obs.append(o)
@@ -689,8 +704,12 @@ def _problems(case, o):
     if o.get("crashes"):
         # an UnknownComputation escaping a message handler of a surviving agent ends that agent's
         # thread (seen ~1 run in 150 under heavy load): recorded finding; anything else is new
-        only_unknown = all(len(x) == 3 and x[0] != "orchestrator" and x[0] not in leaving
-                           and x[1] == "UnknownComputation" for x in o["crashes"])
+        # (the recorded one escapes from a message handler of the replication / discovery path;
+        # an exception escaping from the agent's own _on_repair_computation_finished -- e.g. an
+        # unguarded re-replication of the re-hosted computations -- is NOT that finding)
+        only_unknown = all(len(x) == 4 and x[0] != "orchestrator" and x[0] not in leaving
+                           and x[1] == "UnknownComputation"
+                           and "_on_repair_computation_finished" not in x[3] for x in o["crashes"])
         # (the ValueError of a stale un-publication forwarded to the Discovery of the new host, finding
         #  F_STALE, is fixed in /repo 3fa7ad9: such a crash would be a regression and is NOT classified)
         return [(F_CRASH if only_unknown else None,
@@ -864,6 +883,13 @@ def _repair_problems(case, o):
             out.append((None, "capacity constraint of %s: remaining %r over %r %r; expected remaining %r over %r" % (
                 a, cap[0], cap[1], cap[2], case["slack"][a], mine)))
         total += cap[3]
+        if ao.get("after_report") is not None:
+            out.append((None, "%s: _on_repair_computation_finished raised %r after reporting %r: in a run the "
+                              "agent's thread ends and its computations %r are on no live agent" % (
+                                  a, ao["after_report"], ao["reported"], ao["own"] + ao["deployed"])))
+        elif ao.get("left_repair") or ao.get("own_after") != ao.get("own"):
+            out.append((None, "%s after its repair: repair computations left %r, own computations %r (had %r)" % (
+                a, ao.get("left_repair"), ao.get("own_after"), ao.get("own"))))
         want_sel = sorted(c for c in mine if x.get((c, a), 0) == 1)
         if len(ao["reported"]) != 1 or sorted(ao["reported"][0]) != want_sel or ao["deployed"] != want_sel:
             out.append((None, "%s reported %r and deployed %r, its variables at 1 are %r" % (
